@@ -44,6 +44,8 @@ func mkAddr(network, address string) net.Addr {
 }
 
 // Listen creates a listening socket for the calling process.
+//
+//go:norace
 func (w *World) Listen(network, address string) (*Listener, error) {
 	cur := Cur()
 	cur.gate()
@@ -115,8 +117,11 @@ func (w *World) Listen(network, address string) (*Listener, error) {
 }
 
 // BusyPorts lets a scenario occupy TCP ports (bound by someone else).
+//
+//go:norace
 func (w *World) portBusy(p int) bool { return w.busyPorts[p] }
 
+//go:norace
 func (w *World) SetPortBusy(p int) {
 	w.mu.Lock()
 	if w.busyPorts == nil {
@@ -139,6 +144,7 @@ func (l *Listener) Addr() net.Addr { return mkAddr(l.Network, l.Address) }
 
 func (l *Listener) Owner() *Proc { return l.owner }
 
+//go:norace
 func (l *Listener) Accept() (*Endpoint, error) {
 	for {
 		l.owner.gate()
@@ -196,6 +202,7 @@ func (l *Listener) Close() error {
 	return nil
 }
 
+//go:norace
 func (l *Listener) kclose(byExit bool) {
 	l.mu.Lock()
 	if l.closed {
@@ -237,6 +244,8 @@ func (l *Listener) kclose(byExit bool) {
 }
 
 // ListenerAt returns the live listener at an address, if any.
+//
+//go:norace
 func (w *World) ListenerAt(network, address string) *Listener {
 	if network == "unix" {
 		address = clean(address)
@@ -247,6 +256,8 @@ func (w *World) ListenerAt(network, address string) *Listener {
 }
 
 // Listeners lists live listeners (intruder uses this to learn addresses).
+//
+//go:norace
 func (w *World) Listeners() []*Listener {
 	w.mu.Lock()
 	defer w.mu.Unlock()
@@ -282,6 +293,8 @@ func (e *Endpoint) Name() string { return e.name }
 
 // Dial connects the calling process to a listener. The connection is
 // established as soon as it is in the backlog, as with a real kernel.
+//
+//go:norace
 func (w *World) Dial(network, address string) (*Endpoint, error) {
 	cur := Cur()
 	cur.gate()
@@ -422,6 +435,7 @@ func (e *Endpoint) Write(p []byte) (int, error) {
 	return n, err
 }
 
+//go:norace
 func (w *World) latClass() string {
 	if c := w.Spec.P("latclass", ""); c != "" {
 		return c
